@@ -181,11 +181,16 @@ class Factory:
             r.t_created = now
         elif r.loc[0] == "node" and r.loc[1] is node:
             pass
+        elif r.loc[0] == "pallet" and self.rec(r.loc[1]).loc == ("node", node):
+            pass     # unpacked from a pallet this node holds
         else:
             self.soft("C03:item-put-into-an-edge-while-located-elsewhere", {"item": repr(obj), "loc": repr(r.loc), "by": getattr(node, "id", None)})
         r.loc = ("edge", e)
         r.hist.append(("put", now, e, node))
-        self.events.append(("put", now, e, node, r, t))
+        for x in getattr(obj, "items", None) or []:
+            rx = self.rec(x)
+            rx.loc = ("pallet", obj)
+        self.events.append(("put", now, e, node, r, t, tuple(getattr(obj, "items", None) or ())))
 
     def _on_get(self, e, ev, obj):
         node = self.caller()
@@ -202,7 +207,7 @@ class Factory:
         if kind == "node":
             self.pull_seq = getattr(self, "pull_seq", 0) + 1
             r.pulls.append({"node": node, "t": now, "edge": e, "d": None, "t_out": None, "out": None, "_seq": self.pull_seq})
-        self.events.append(("get", now, e, node, r, t))
+        self.events.append(("get", now, e, node, r, t, tuple(getattr(obj, "items", None) or ())))
 
     def _on_cancel(self, e, ev, kind):
         t = self.toks.get(id(ev))
